@@ -131,8 +131,13 @@ type InfoData struct {
 
 // HandleInfo handles info-page request.
 func (s *ProxyServer) HandleInfo(w http.ResponseWriter, r *http.Request) {
+	dist := s.p.distributor()
+	if dist == nil {
+		http.Error(w, "proxy distributor is not initialized", http.StatusServiceUnavailable)
+		return
+	}
 	data := InfoData{
-		s.p.dist.policy.Name(),
+		dist.policy.Name(),
 		stringToHTML(s.p.llWatcher.Source()),
 		stringToHTML(string(s.p.llWatcher.LastJSON())),
 	}
